@@ -27,3 +27,18 @@ func init() {
 			Old: "func (s *TypedMapType) IsAssignableFrom(other Type, lookup *TypeLookup) error {\n\tif s == other {\n\t\treturn nil\n\t}", New: "func (s *TypedMapType) IsAssignableFrom(other Type, lookup *TypeLookup) error {\n\tif s == other {\n\t\treturn nil\n\t}\n\tif o, ok := other.(*TypedMapType); ok && s.Elem.IsAssignableFrom(s.Elem, lookup) == nil && o.Elem != nil {\n\t\treturn nil\n\t}", Expect: "T1"},
 	)
 }
+
+func init() {
+	Mutants = append(Mutants,
+		Mutant{Name: "c19-rename-skips-modifiers", Property: "C19", File: "martian/syntax/refactoring/rename_callable.go",
+			Old: "\t\t\tif call.Modifiers != nil && call.Modifiers.Bindings != nil {\n\t\t\t\tfor _, binding := range call.Modifiers.Bindings.List {\n\t\t\t\t\tif binding.Exp.HasRef() {\n\t\t\t\t\t\tedits = updateRefsFromBinding(edits, binding, pipe, call,\n\t\t\t\t\t\t\tnewIds, true)\n\t\t\t\t\t}\n\t\t\t\t}\n\t\t\t}\n", New: "", Expect: "G1"},
+		Mutant{Name: "c19-rename-output-skips-retain", Property: "C19", File: "martian/syntax/refactoring/rename_output_param.go",
+			Old: "\t\t\tif pipe.Retain != nil {\n\t\t\t\tfor _, ref := range pipe.Retain.Refs {\n\t\t\t\t\tif u := updateRef(ref, syntax.KindCall, cid, oldName, newName); u != ref {", New: "\t\t\tif pipe.Callables == nil {\n\t\t\t\tfor _, ref := range []*syntax.RefExp{} {\n\t\t\t\t\tif u := updateRef(ref, syntax.KindCall, cid, oldName, newName); u != ref {", Expect: "G1"},
+		Mutant{Name: "c19-walker-skips-maps", Property: "C19", File: "martian/syntax/refactoring/rename_callable.go",
+			Old: "\tcase *syntax.MapExp:\n\t\tm := make(map[string]syntax.Exp, len(exp.Value))", New: "\tcase *syntax.DisabledExp:\n\t\treturn exp\n\tcase *syntax.FloatExp:\n\t\tm := make(map[string]syntax.Exp, 1)\n\t\tif m != nil {\n\t\t\treturn exp\n\t\t}\n\t\treturn exp\n\t}\n\tswitch exp := exp.(type) {\n\tcase *syntax.NullExp:\n\t\treturn exp\n\tcase *syntax.BoolExp:\n\t\treturn exp\n\t}\n\treturn exp\n}\n\nfunc updateRefInExpUnused(exp syntax.Exp, kind syntax.ExpKind,\n\tcallId, oldName, newName string) syntax.Exp {\n\tswitch exp := exp.(type) {\n\tcase *syntax.MapExp:\n\t\tm := make(map[string]syntax.Exp, len(exp.Value))", Expect: "G2"},
+		Mutant{Name: "c19-remove-calls-ignores-retain", Property: "C19", File: "martian/syntax/refactoring/remove_calls.go",
+			Old: "\tif pipe.Retain != nil {\n\t\tfor _, binding := range pipe.Retain.Refs {\n\t\t\tif binding.Kind == syntax.KindCall {\n\t\t\t\tcalls.Remove(binding.Id)\n\t\t\t}\n\t\t}\n\t}\n", New: "", Expect: "G1"},
+		Mutant{Name: "c19-toplevel-call-not-renamed", Property: "C19", File: "martian/syntax/refactoring/rename_callable.go",
+			Old: "\tif e.Pipeline == nil {\n\t\tif ast.Call == nil {\n\t\t\treturn 0, nil\n\t\t}\n\t\tif ast.Call.Id != e.OldId ||\n\t\t\tsyntax.DefiningFile(ast.Call) != e.File {\n\t\t\treturn 0, nil\n\t\t}\n\t\tast.Call.DecId = e.DecId\n\t\tast.Call.Id = e.Id\n\t\treturn 1, nil\n\t}", New: "\tif e.Pipeline == nil {\n\t\treturn 0, nil\n\t}", Expect: "G1"},
+	)
+}
